@@ -1387,6 +1387,18 @@ class Expression(Term):
                 )
         if self.inline:
             subs_strs = [str(ai.to_python(want_inline_parens=True)) for ai in self.args]
+            if self.op == "**":
+                # ** binds tighter than a unary minus on its left: (-x) ** 2 and (-5) ** 2 need their parentheses
+                base = self.args[0]
+                if (
+                    isinstance(base, Expression) and base.inline and (len(base.args) == 1)
+                ) or (
+                    isinstance(base, Value)
+                    and isinstance(base.value, (int, float))
+                    and (not isinstance(base.value, bool))
+                    and (base.value < 0)
+                ):
+                    subs_strs[0] = "(" + subs_strs[0] + ")"
             result = (" " + self.op + " ").join(subs_strs)
             if want_inline_parens:
                 return PythonText("(" + result + ")", is_in_parens=True)
